@@ -486,3 +486,34 @@ func EchoArgs(op *spec.Op, vals spec.Args) spec.Args {
 	}
 	return a
 }
+
+// DatesWithTimeOfDay: time values that carry a time of day, in Locations whose daylight-saving
+// change removes local midnight - the last and first hours around every such change 2022..2025 - and
+// in two fixed-offset Locations. A types.Date is a time.Time: whatever time of day it carries, its
+// calendar day is the one the value itself shows.
+func DatesWithTimeOfDay() []time.Time {
+	out := []time.Time{}
+	for _, name := range []string{"America/Santiago", "America/Havana", "Africa/Cairo", "Asia/Beirut", "Atlantic/Azores", "America/Asuncion"} {
+		loc, err := time.LoadLocation(name)
+		if err != nil {
+			panic(err)
+		}
+		for d := time.Date(2022, 1, 1, 12, 0, 0, 0, time.UTC); d.Year() < 2026; d = d.AddDate(0, 0, 1) {
+			y, m, dd := d.Date()
+			if time.Date(y, m, dd, 0, 0, 0, 0, loc).Hour() == 0 {
+				continue
+			}
+			// local midnight of y-m-dd does not exist in loc
+			for _, hms := range [][4]int{{-1, 22, 59, 59}, {-1, 23, 0, 0}, {-1, 23, 0, 1}, {-1, 23, 59, 59}, {0, 1, 0, 0}, {0, 1, 30, 0}, {0, 12, 0, 0}, {0, 23, 0, 0}} {
+				out = append(out, time.Date(y, m, dd+hms[0], hms[1], hms[2], hms[3], 0, loc))
+			}
+			out = append(out, time.Date(y, m, dd-1, 23, 0, 0, 500000000, loc))
+		}
+	}
+	for _, loc := range []*time.Location{time.FixedZone("+13", 13*3600), time.FixedZone("-11", -11*3600), time.UTC} {
+		for _, hms := range [][3]int{{0, 0, 1}, {12, 34, 56}, {23, 0, 0}, {23, 59, 59}} {
+			out = append(out, time.Date(2024, 2, 29, hms[0], hms[1], hms[2], 0, loc), time.Date(2024, 12, 31, hms[0], hms[1], hms[2], 999999999, loc))
+		}
+	}
+	return out
+}
